@@ -39,6 +39,9 @@ func rejectWords(n uint32) []uint32 {
 	if w, ok := rejCache[n]; ok {
 		return w
 	}
+	if tape.InRead() {
+		return nil // never re-enter the library from inside one of its reads
+	}
 	saved := curTape()
 	defer install(saved)
 	K := (uint64(1) << 32) / uint64(n)
